@@ -230,7 +230,17 @@ def runtime_namespace(extra=None):
     def fwd_rank(seq, be, p):
         return sum(1 for t in list(seq)[:p] if t not in be)
 
-    ns.update(fwd_rank=fwd_rank)
+    def hier_names(sub):
+        out, st = set(), [sub]
+        while st:
+            g = st.pop()
+            for k, b in g.graph.items():
+                out.add(k)
+                if type(b).__name__ == 'RegionBlock' and b.subregion is not None:
+                    st.append(b.subregion)
+        return out
+
+    ns.update(fwd_rank=fwd_rank, hier_names=hier_names)
     ns.update(dominates=dominates, dgfp=dgfp, tmap=LazyMap, identical=lambda a, b: a == b, same_value=lambda a, b: a == b)
     ns.update(block_name=block_name, region_name=region_name, var_name=var_name, gen_index=gen_index, is_generated=is_generated)
     ns.update(reach1=reach1, implies=implies, distinct=distinct, is_sorted=is_sorted, updated=updated, removed=removed,
